@@ -354,4 +354,11 @@ func BigFloatToFixedPointCRT(r *ring.Ring, values []*big.Float, scale *big.Float
 			}
 		}
 	}
+
+	// The coefficients that are not given are zero, as in Float64ToFixedPointCRT
+	for j := range moduli {
+		for i := len(values); i < len(coeffs[j]); i++ {
+			coeffs[j][i] = 0
+		}
+	}
 }
